@@ -42,6 +42,8 @@ fn gen_helper_prog(rng: &mut Rng, allow_local: bool) -> Plan {
             1 => crate::genp::CalcSpec::Const(8),
             2 => crate::genp::CalcSpec::Const(16),
             3 => crate::genp::CalcSpec::Table(rng.below(16) as u16),
+            // frame sizes that are not multiples of 8 or 16 (any u16 is a legal answer)
+            4 => crate::genp::CalcSpec::Const(*rng.pick(&[1u16, 4, 7, 12, 20, 24, 33])),
             _ => crate::genp::CalcSpec::None,
         };
         let small_frames = matches!(calc, crate::genp::CalcSpec::Const(_));
